@@ -4,6 +4,7 @@ import re
 
 from ..guards import ne, sh
 from ..panics import label_names
+from ..mir import parent_fn
 from .c07 import LEX, lexer_bodies, pos_writes, r3_parser_position_free
 
 SCAN = LEX + "scan_identifier_or_keyword"
@@ -434,8 +435,42 @@ def r12_a_relayout_cannot_crash_the_renderer(ctx):
     r10_front_end_memory_is_linear(ctx)
 
 
+def r13_no_private_notion_of_blank(ctx):
+    """The scanner has one notion of layout between words: u8::is_ascii_whitespace (R1).  A byte of the source compared with a
+    space or a tab constant is a second, narrower notion - `if` followed by a line break instead of a space is then no longer
+    the start of `if to say`, so the same tokens are accepted on one line and rejected when broken over two.  Expected count
+    of such comparisons: zero (the seeded change C10-m13 is the positive example of the self-test)."""
+    hits = []
+    for fn in ctx.lib.in_file("src/syntax/scanner.rs"):
+        for S in sorted(fn.live):
+            t = fn.blocks[S]["t"]
+            if t["k"] == "switch" and any(v in (32, 9) for v, _ in t["ts"]):
+                d = sh(ne(fn.deep(t["d"], 8)))
+                if "src" in d or "bytes" in d or "get(" in d or "index(" in d:
+                    hits.append((fn, S, d))
+        for b in sorted(fn.live):
+            for st in fn.blocks[b]["s"]:
+                rv = st["rv"]
+                if rv["k"] == "bin" and rv["op"] in ("Eq", "Ne") and any(isinstance(o, dict) and o.get("int") in (32, 9) for o in (rv["a"], rv["b"])):
+                    hits.append((fn, b, sh(ne(fn.deep_rvalue(rv)))))
+    for fn in ctx.lib.in_file("src/syntax/scanner.rs"):
+        ctx.touch(fn)
+    if hits:
+        fn, b, d = hits[0]
+        ctx.bad("blank|private-set|%s" % parent_fn(fn.id).split("::")[-1], fn.where(b), "%s compares a source byte with the space / tab constants (`%s`): a line break, which is_ascii_whitespace accepts in the same place, is treated differently, so a re-layout changes which tokens are read" % (parent_fn(fn.id).split("::")[-1], d[:60]))
+    else:
+        ctx.ok("blank|one-notion", "src/syntax/scanner.rs", "no source byte is compared with a space or tab constant")
+
+
+def r14_stdin_text_is_taken_whole(ctx):
+    """A script piped into `naija -` is the same program however the pipe delivers it: the bytes are validated as text once,
+    after the last read, and the reading loop ends only when a read returns nothing.  Shared with C14-R2 (the CLI wiring)."""
+    from .c14 import r2_same_wiring
+    r2_same_wiring(ctx)
+
+
 RULES = [("C10-R1", r1_one_whitespace_predicate), ("C10-R2", r2_tokens_carry_no_layout), ("C10-R3", r3_parser_sees_only_tokens),
-         ("C10-R4", r4_lookahead_rollback), ("C10-R5", r5_parentheses_add_no_node), ("C10-R6", r6_word_is_identifier_bytes), ("C10-R7", r7_token_start_after_layout), ("C10-R8", r8_adjacency_errors_are_identifier_glue_only), ("C10-R9", r9_line_ends_are_equal_for_the_renderer), ("C10-R10", r10_keyword_words_end_at_identifier_bytes), ("C10-R11", r11_grouping_is_the_documented_one), ("C10-R12", r12_a_relayout_cannot_crash_the_renderer)]
+         ("C10-R4", r4_lookahead_rollback), ("C10-R5", r5_parentheses_add_no_node), ("C10-R6", r6_word_is_identifier_bytes), ("C10-R7", r7_token_start_after_layout), ("C10-R8", r8_adjacency_errors_are_identifier_glue_only), ("C10-R9", r9_line_ends_are_equal_for_the_renderer), ("C10-R10", r10_keyword_words_end_at_identifier_bytes), ("C10-R11", r11_grouping_is_the_documented_one), ("C10-R12", r12_a_relayout_cannot_crash_the_renderer), ("C10-R13", r13_no_private_notion_of_blank), ("C10-R14", r14_stdin_text_is_taken_whole)]
 
 EXPLANATION = (
     "R1: both whitespace-skipping loops of the scanner (between tokens, between the words of a multi-word keyword) use the "
